@@ -576,6 +576,26 @@ fn api_ops() -> Vec<ApiOp> {
     v
 }
 
+/// second alphabet of the api sweep: the reverse debugger over histories of sources that fail at
+/// run time inside loops / calls (their frames and loop ranges stay behind and the next source
+/// runs above them); `rnext*` / `next*` walk as far as the call allows (at most 300 steps)
+fn dbg_ops() -> Vec<ApiOp> {
+    let mut v = vec![];
+    for s in ["2 0 do I 2 0 do I 0 / loop loop", "7 drop 1 0 /", ": pf drop ; pf", "[ 1 2 ] foreach drop drop loop", "2 0 do I drop loop"] {
+        v.push(ApiOp { name: "eval", kind: 0, src: s });
+    }
+    for s in ["2 0 do I drop loop", ": g 1 ; g"] {
+        v.push(ApiOp { name: "compile", kind: 1, src: s });
+    }
+    v.push(ApiOp { name: "run", kind: 2, src: "" });
+    v.push(ApiOp { name: "next", kind: 3, src: "" });
+    v.push(ApiOp { name: "rnext", kind: 4, src: "" });
+    v.push(ApiOp { name: "rnext until it fails", kind: 12, src: "" });
+    v.push(ApiOp { name: "next until it fails or stops", kind: 13, src: "" });
+    v.push(ApiOp { name: "set_recording_enabled(true)", kind: 8, src: "" });
+    v
+}
+
 fn api_show(o: &ApiOp) -> String {
     if o.kind <= 1 && o.src.len() > 200 {
         format!("{}(<{} blanks>{})", o.name, o.src.len() - o.src.trim_start().len(), o.src.trim_start())
@@ -597,6 +617,8 @@ struct Ctx {
     text_len: usize,
     ops: Vec<ApiOp>,
     api_len: usize,
+    ops2: Vec<ApiOp>,
+    api_len2: usize,
     bases: Vec<Option<Xstate>>, // per start state (lazily built)
     plain: Xstate,              // fresh + limits (sweeps 2..4)
 }
@@ -718,6 +740,8 @@ impl Ctx {
             text_len: if quick { 4 } else { 5 },
             ops: api_ops(),
             api_len: if quick { 3 } else { 4 },
+            ops2: dbg_ops(),
+            api_len2: if quick { 5 } else { 6 },
             bases: (0..START_STATES.len()).map(|_| None).collect(),
             plain,
         }
@@ -728,7 +752,17 @@ impl Ctx {
             Sweep::Words => self.words_total,
             Sweep::Tokens => pow_sum(self.toks.len() as u64, self.tok_len, 0) * 3,
             Sweep::Text => pow_sum(TEXT_SIGMA.len() as u64, self.text_len, 0),
-            Sweep::Api => pow_sum(self.ops.len() as u64, self.api_len, 1),
+            Sweep::Api => pow_sum(self.ops.len() as u64, self.api_len, 1) + pow_sum(self.ops2.len() as u64, self.api_len2, 1),
+        }
+    }
+
+    /// (alphabet, offset of the alphabet in the op-used table, sequence)
+    fn api_decode(&self, idx: u64) -> (&[ApiOp], usize, Vec<usize>) {
+        let n1 = pow_sum(self.ops.len() as u64, self.api_len, 1);
+        if idx < n1 {
+            (&self.ops, 0, decode_seq(idx, self.ops.len() as u64, 1, self.api_len))
+        } else {
+            (&self.ops2, self.ops.len(), decode_seq(idx - n1, self.ops2.len() as u64, 1, self.api_len2))
         }
     }
 
@@ -762,7 +796,10 @@ impl Ctx {
                 format!("{}:{}", MODES[(idx % 3) as usize], self.show_toks(&seq))
             }
             Sweep::Text => format!("{:?}", self.text_of(&decode_seq(idx, TEXT_SIGMA.len() as u64, 0, self.text_len))),
-            Sweep::Api => self.show_ops(&decode_seq(idx, self.ops.len() as u64, 1, self.api_len)),
+            Sweep::Api => {
+                let (alpha, _, seq) = self.api_decode(idx);
+                Self::show_ops(alpha, &seq)
+            }
         }
     }
 
@@ -775,8 +812,8 @@ impl Ctx {
     fn text_of(&self, seq: &[usize]) -> String {
         seq.iter().map(|i| TEXT_SIGMA[*i]).collect()
     }
-    fn show_ops(&self, seq: &[usize]) -> String {
-        seq.iter().map(|i| api_show(&self.ops[*i])).collect::<Vec<_>>().join("; ")
+    fn show_ops(alpha: &[ApiOp], seq: &[usize]) -> String {
+        seq.iter().map(|i| api_show(&alpha[*i])).collect::<Vec<_>>().join("; ")
     }
 
     fn base(&mut self, s: usize, fresh: bool) -> Xstate {
@@ -1157,11 +1194,11 @@ impl Ctx {
     }
 
     // ---------------------------------------------------------------- sweep 4
-    fn run_api(&self, seq: &[usize], st: &mut Stats) -> (u64, Option<Pan>) {
+    fn run_api(&self, alpha: &[ApiOp], seq: &[usize], st: &mut Stats) -> (u64, Option<Pan>) {
         let mut xs = self.plain.clone();
         let mut oks = 0;
         for (n, i) in seq.iter().enumerate() {
-            let op = &self.ops[*i];
+            let op = &alpha[*i];
             st.calls += 1;
             let stage = format!("#{} {}", n + 1, op.name);
             let r = g(&stage, || match op.kind {
@@ -1176,6 +1213,29 @@ impl Ctx {
                 8 => {
                     xs.set_recording_enabled(true);
                     Ok(())
+                }
+                12 => {
+                    let mut r = Ok(());
+                    for _ in 0..300 {
+                        r = xs.rnext();
+                        if r.is_err() {
+                            break;
+                        }
+                    }
+                    r
+                }
+                13 => {
+                    let mut r = Ok(());
+                    for _ in 0..300 {
+                        if !xs.is_running() {
+                            break;
+                        }
+                        r = xs.next();
+                        if r.is_err() {
+                            break;
+                        }
+                    }
+                    r
                 }
                 _ => {
                     xs.set_recording_enabled(false);
@@ -1198,24 +1258,26 @@ impl Ctx {
     }
 
     fn case_api(&mut self, idx: u64, out: &mut Out) {
-        let seq = decode_seq(idx, self.ops.len() as u64, 1, self.api_len);
-        let (oks, pan) = self.run_api(&seq, &mut out.st);
+        let (alpha, used_off, seq) = self.api_decode(idx);
+        let alpha = alpha.to_vec();
+        let alpha = &alpha[..];
+        let (oks, pan) = self.run_api(alpha, &seq, &mut out.st);
         bump(&mut out.st.counters, &format!("api:ok-calls-in-sequence:{}", oks));
         for t in &seq {
-            out.op_used[*t] += 1;
+            out.op_used[used_off + *t] += 1;
         }
         if oks > 0 {
             out.nontrivial += 1;
         }
         if out.samples.len() < 8 && seq.len() == 3 && oks == 3 && idx % 211 == 0 {
-            out.samples.push(format!("api: {} -> all Ok", self.show_ops(&seq)));
+            out.samples.push(format!("api: {} -> all Ok", Self::show_ops(alpha, &seq)));
         }
         if let Some(p) = pan {
             bump(&mut out.st.counters, "api:panics");
             let mut st = Stats { calls: 0, counters: BTreeMap::new() };
             let loc_same = |q: &Option<Pan>| q.as_ref().map(|q| q.loc == p.loc).unwrap_or(false);
-            let cur = min_subseq(&seq, false, |t| loc_same(&self.run_api(t, &mut st).1));
-            let show = self.show_ops(&cur);
+            let cur = min_subseq(&seq, false, |t| loc_same(&self.run_api(alpha, t, &mut st).1));
+            let show = Self::show_ops(alpha, &cur);
             out.violation(
                 &format!("panic:api:{}", keyify(&show)),
                 cur.len() as u64 * 1000 + show.len() as u64,
@@ -1228,7 +1290,7 @@ impl Ctx {
                     ("start", format!("Xstate::boot(), limits insn={} stack={} heap=+{}", INSN_LIMIT, STACK_LIMIT, HEAP_EXTRA)),
                     ("expected", "every call returns Ok or Err".into()),
                     ("observed", format!("panic in {} at {}: {}", p.stage, p.loc, p.msg)),
-                    ("first_seen_as", self.show_ops(&seq)),
+                    ("first_seen_as", Self::show_ops(alpha, &seq)),
                 ],
             );
         }
@@ -1389,7 +1451,7 @@ pub fn worker(args: &[String]) -> i32 {
         samples: vec![],
         key_cache: BTreeMap::new(),
         tok_used: vec![0; ctx.toks.len()],
-        op_used: vec![0; ctx.ops.len()],
+        op_used: vec![0; ctx.ops.len() + ctx.ops2.len()],
         seen: BTreeMap::new(),
     };
     out.line(&format!("P\toverflow_checks={}\tdebug_assertions={}\twords={}\ttotal={}", checks, cfg!(debug_assertions), ctx.words.len(), ctx.total(sw)));
@@ -1446,7 +1508,8 @@ pub fn worker(args: &[String]) -> i32 {
     }
     for (i, n) in out.op_used.clone().iter().enumerate() {
         if sw == Sweep::Api {
-            out.line(&format!("C\top-used:{}\t{}", esc(&api_show(&ctx.ops[i])), n));
+            let o = if i < ctx.ops.len() { api_show(&ctx.ops[i]) } else { format!("debugger alphabet: {}", api_show(&ctx.ops2[i - ctx.ops.len()])) };
+            out.line(&format!("C\top-used:{}\t{}", esc(&o), n));
         }
     }
     for (k, (_, n)) in out.seen.clone() {
@@ -1955,6 +2018,8 @@ pub fn run(cfg: &Cfg) -> i32 {
     ev.add("text_length", ji(ctx.text_len));
     ev.add("api_alphabet", J::A(ctx.ops.iter().map(|o| js(api_show(o))).collect()));
     ev.add("api_sequence_length", ji(ctx.api_len));
+    ev.add("api_debugger_alphabet", J::A(ctx.ops2.iter().map(|o| js(api_show(o))).collect()));
+    ev.add("api_debugger_sequence_length", ji(ctx.api_len2));
     ev.add("cases_per_word_checked", jmap(&per_word));
     let mut oc = BTreeMap::<String, u64>::new();
     for (k, v) in &agg.counters[0] {
